@@ -65,8 +65,16 @@ def run_case(prop, case, timeout_s=30.0, keep_log=False):
         # therefore PyRTL refusing or crashing on a legal call; anything else is ours.
         signal.setitimer(signal.ITIMER_REAL, 0)
         tb = traceback.extract_tb(e.__traceback__)
-        inner = tb[-1] if tb else None
         pyrtl_dir = os.path.join(os.path.realpath(common.REPO_DIR), 'pyrtl') + os.sep
+        vs_dir = os.path.join(os.path.realpath(common.VERIF_DIR), 'verifsim') + os.sep
+        # the deepest frame that is PyRTL's or ours decides (frames of the standard library
+        # below it -- subprocess, ctypes, re -- were called by whoever that is)
+        inner = None
+        for fr in reversed(tb):
+            rp = os.path.realpath(fr.filename)
+            if rp.startswith(pyrtl_dir) or rp.startswith(vs_dir):
+                inner = fr
+                break
         if inner is None or not os.path.realpath(inner.filename).startswith(pyrtl_dir):
             raise
         ours = [f for f in tb if os.sep + 'verifsim' + os.sep in f.filename]
